@@ -1,0 +1,18 @@
+//go:build verif
+
+package table
+
+import "github.com/weedbox/pokerface/seat_manager"
+
+// Verification hook (build tag verif): read access to the seat manager and the
+// hand counter of the built-in table, so that a test harness can compare the
+// positions a table hands to the game with the seat manager's own state.
+
+// VerifSeatManager returns the table's seat manager; nil if t is not the built-in table
+func VerifSeatManager(t Table) *seat_manager.SeatManager {
+	tt, ok := t.(*table)
+	if !ok {
+		return nil
+	}
+	return tt.sm
+}
